@@ -26,7 +26,7 @@ TChkBase == /\ IsEvent("chk_base") /\ phase = "done"
 
 Same(view) == LET I == Rec[base].intact IN
               view.outcome = "value" /\ view.count = I.count /\ view.catalog = I.catalog /\ view.objects = I.objects
-Recovered(e) == Same(e.lenient) /\ Same(e.skip_errors)
+Recovered(e) == Same(e.lenient) /\ Same(e.skip_errors) /\ Same(e.tolerant)      \* the three presets that enable recovery
 TDamaged == /\ IsEvent("damaged") /\ Recovered(Rec[l]) /\ UNCHANGED <<allvars, base>>
 
 (* Named deviation (open finding): cross-reference entries that still parse but point at the wrong bytes (all
@@ -36,7 +36,7 @@ TDamaged == /\ IsEvent("damaged") /\ Recovered(Rec[l]) /\ UNCHANGED <<allvars, b
 OffsetsLie(e) == \E i \in 1..Len(e.ops) : e.ops[i].op \in {"shift_all", "corrupt_entry"}
 TDamagedKnown == /\ KnownOpen("KF_C19_OFFSETS")
                  /\ IsEvent("damaged")
-                 /\ LET e == Rec[l] IN OffsetsLie(e) /\ ~Recovered(e) /\ e.lenient.outcome \in {"value", "error"} /\ e.skip_errors.outcome \in {"value", "error"}
+                 /\ LET e == Rec[l] IN OffsetsLie(e) /\ ~Recovered(e) /\ e.lenient.outcome \in {"value", "error"} /\ e.skip_errors.outcome \in {"value", "error"} /\ e.tolerant.outcome \in {"value", "error"}
                  /\ NoteKnown("KF_C19_OFFSETS", l)
                  /\ UNCHANGED <<allvars, base>>
 (* Named deviation (open finding): the recovery scan takes `N G obj` found INSIDE STREAM DATA for object headers; a later
@@ -48,7 +48,7 @@ DecoyOnly(view) == LET I == Rec[base].intact IN
                    /\ \A k \in DOMAIN I.objects : k \notin {"3", "12"} => view.objects[k] = I.objects[k]
 TDamagedKnownDecoy == /\ KnownOpen("KF_C19_STREAM_HEADERS")
                       /\ IsEvent("damaged") /\ Rec[base].name = "decoy"
-                      /\ LET e == Rec[l] IN ~Recovered(e) /\ DecoyOnly(e.lenient) /\ DecoyOnly(e.skip_errors)
+                      /\ LET e == Rec[l] IN ~Recovered(e) /\ DecoyOnly(e.lenient) /\ DecoyOnly(e.skip_errors) /\ DecoyOnly(e.tolerant)
                       /\ NoteKnown("KF_C19_STREAM_HEADERS", l)
                       /\ UNCHANGED <<allvars, base>>
 TNext == TBase \/ TScan \/ TChkBase \/ TDamaged \/ TDamagedKnown \/ TDamagedKnownDecoy
